@@ -40,12 +40,14 @@ def _work(job: Tuple[int, int, int]) -> Dict:
         "never_returned": {"compose": 0, "quotient": 0, "merge": 0},
     }
     digs = []
+    all_logs = []
     for i in range(start, end):
         seed = env.run_seed(base, PROP, i)
         plan = c05.gen_plan(seed)
         traced = i % TRACE_EVERY == 0
         res = c05.execute(plan, trace=traced)
         agg["runs"] += 1
+        all_logs.append(res["log_digest"][:16])
         agg["ops"] += len(plan["ops"])
         for o in res["outcomes"]:
             agg["outcomes"][o] = agg["outcomes"].get(o, 0) + 1
@@ -70,6 +72,7 @@ def _work(job: Tuple[int, int, int]) -> Dict:
         if i < 3:
             agg["samples"].append({"run": i, "plan": plan, "outcomes": res["outcomes"], "fired": res["fired"]})
     agg["digs"] = np.array(digs, dtype=np.uint64)
+    agg["chunk_digest"] = env.digest(all_logs)
     agg["sigs"] = sorted(agg["sigs"])
     return agg
 
@@ -137,7 +140,9 @@ def run(tier: str, runs_override: Optional[int] = None) -> int:
     samples: List[Dict] = []
     sigs = set()
     digs = []
+    chunk_digests = []
     for p in parts:
+        chunk_digests.append(p["chunk_digest"])
         for k in ("runs", "ops", "primitive_calls", "nontrivial", "n_violating_runs", "n_other_exceptions", "traced_runs"):
             tot[k] += p[k]
         runner.merge_counts(tot["outcomes"], p["outcomes"])
@@ -223,6 +228,7 @@ def run(tier: str, runs_override: Optional[int] = None) -> int:
             "algebra_line_reach": {"traced_programs": tot["traced_runs"], "functions": reach},
             "non_documented_exceptions_seen": {"count": tot["n_other_exceptions"], "examples": [o["exc"] for o in others[:5]]},
             "runs_per_hour": int(tot["runs"] / max(wall_search, 1e-9) * 3600),
+            "batch_digest": env.digest(chunk_digests),
             "workers": workers,
             "simulated_time_s": 0,
             "simulated_time_note": "the algebra layer reads no clock; there is no simulated time in this configuration",
